@@ -114,6 +114,10 @@ impl Out {
     pub fn is_panic(&self) -> bool {
         matches!(self, Out::Panic(_))
     }
+    /// the run was abandoned by the harness (step budget), not by the code under test
+    pub fn is_budget(&self) -> bool {
+        matches!(self, Out::Panic(m) if m.starts_with(STEP_BUDGET_MARKER))
+    }
     pub fn to_json(&self) -> Json {
         match self {
             Out::Ok(s) => Json::obj(vec![("ok", Json::str(s))]),
@@ -527,16 +531,25 @@ pub struct Sched {
     pub pending_before: Option<(usize, bool)>,
     pub stats: SchedStats,
     pub track_kinds: bool,
+    /// hard bound on evaluator steps under this schedule: beyond it the run is abandoned (the decider panics with a
+    /// marker, the harness catches it and discards the run). Some library functions recurse without consuming frames
+    /// (e.g. std.prune on an infinitely deep lazy object) and would otherwise run until memory is exhausted.
+    pub step_limit: u64,
 }
+
+pub const STEP_BUDGET_MARKER: &str = "harness: step budget exceeded";
 
 impl Sched {
     pub fn new(mode: SchedMode, audit: AuditMode, rng: Rng) -> Self {
-        Sched { mode, audit, rng, base: 0, collected: Vec::new(), last_objects: 0, pending_before: None, stats: SchedStats::default(), track_kinds: true }
+        Sched { mode, audit, rng, base: 0, collected: Vec::new(), last_objects: 0, pending_before: None, stats: SchedStats::default(), track_kinds: true, step_limit: 250_000 }
     }
 
     pub fn decide(&mut self, pt: &GcPoint) -> GcDecision {
         let rel = pt.ordinal - self.base;
         self.stats.steps += 1;
+        if self.stats.steps > self.step_limit {
+            panic!("{STEP_BUDGET_MARKER}");
+        }
         if let Some((before, mid)) = self.pending_before.take() {
             // the previous step collected: objs_after_last_gc is the count right after it
             let freed = before.saturating_sub(pt.objs_after_last_gc);
